@@ -630,7 +630,7 @@ func (e *c11Env) serveBytes(data []byte, file string) ([]c11OpResult, string, er
 		return nil, "", err
 	}
 	defer os.RemoveAll(dir)
-	res, err := e.serveDir(dir)
+	res, err := e.serveDir(dir, func() {})
 	return res, dir, err
 }
 
@@ -652,18 +652,20 @@ func (e *c11Env) writeDir(data []byte, file string) (string, error) {
 
 var errC11Deadline = errors.New("a call only returned when its context deadline expired")
 
-func (e *c11Env) serveDir(dir string) ([]c11OpResult, error) {
+func (e *c11Env) serveDir(dir string, beat func()) ([]c11OpResult, error) {
 	ds, err := search.NewDirectorySearcher(dir)
 	if err != nil {
 		return nil, fmt.Errorf("NewDirectorySearcher: %w", err)
 	}
 	defer ds.Close()
+	beat()
 	out := make([]c11OpResult, len(e.battery))
 	for i := range e.battery {
 		ctx, cancel := context.WithTimeout(context.Background(), e.watchdog)
 		out[i] = c11RunOp(ctx, ds, &e.battery[i])
 		late := ctx.Err() != nil
 		cancel()
+		beat()
 		if late {
 			return out, fmt.Errorf("%s: %w", e.battery[i].Name, errC11Deadline)
 		}
@@ -707,18 +709,26 @@ func c11PanicSite(stack string) string {
 	return "unknown"
 }
 
-// c11Watch runs f in its own goroutine and reports whether it returned
-// before the watchdog expired. On expiry the goroutine is left behind.
-func c11Watch(d time.Duration, f func() error) (err error, hung bool) {
+// c11Watch runs f in its own goroutine and reports whether it returned. f
+// calls beat after every completed call into zoekt; the watchdog expires when
+// no call completed for d. On expiry the goroutine is left behind.
+func c11Watch(d time.Duration, f func(beat func()) error) (err error, hung bool) {
 	done := make(chan error, 1)
-	go func() { done <- c11Guard(f) }()
-	t := time.NewTimer(d + d/4)
-	defer t.Stop()
-	select {
-	case err = <-done:
-		return err, false
-	case <-t.C:
-		return nil, true
+	var last atomic.Int64
+	last.Store(time.Now().UnixNano())
+	beat := func() { last.Store(time.Now().UnixNano()) }
+	go func() { done <- c11Guard(func() error { return f(beat) }) }()
+	tick := time.NewTicker(50 * time.Millisecond)
+	defer tick.Stop()
+	for {
+		select {
+		case err = <-done:
+			return err, false
+		case <-tick.C:
+			if time.Since(time.Unix(0, last.Load())) > d+d/10 {
+				return nil, true
+			}
+		}
 	}
 }
 
@@ -761,7 +771,16 @@ func c11StuckStacks() string {
 	buf := make([]byte, 1<<20)
 	buf = buf[:runtime.Stack(buf, true)]
 	var out []string
-	for _, g := range strings.Split(string(buf), "\n\n") {
+	gs := strings.Split(string(buf), "\n\n")
+	// goroutines that are executing come first: a spinning loop is what we look for
+	sort.SliceStable(gs, func(i, j int) bool {
+		busy := func(g string) bool {
+			h, _, _ := strings.Cut(g, "\n")
+			return strings.Contains(h, "[running") || strings.Contains(h, "[runnable")
+		}
+		return busy(gs[i]) && !busy(gs[j])
+	})
+	for _, g := range gs {
 		if !strings.Contains(g, "sourcegraph/zoekt/index.") && !strings.Contains(g, "sourcegraph/zoekt/search.") {
 			continue
 		}
@@ -864,9 +883,9 @@ func (e *c11Env) run(c c11Case) (o c11Outcome) {
 
 	// 1. the real loader path
 	var res []c11OpResult
-	err, hung := c11Watch(e.watchdog*time.Duration(len(e.battery)+1), func() error {
+	err, hung := c11Watch(e.watchdog, func(beat func()) error {
 		var err error
-		res, err = e.serveDir(dir)
+		res, err = e.serveDir(dir, beat)
 		return err
 	})
 	if hung || errors.Is(err, errC11Deadline) {
@@ -906,12 +925,13 @@ func (e *c11Env) run(c c11Case) (o c11Outcome) {
 	// 2. the bare shard, only to classify the outcome and to localise contained crashes
 	var loadErr error
 	sites := map[string]bool{}
-	err, hung = c11Watch(e.watchdog*time.Duration(len(e.battery)+1), func() error {
+	err, hung = c11Watch(e.watchdog, func(beat func()) error {
 		s, err := index.NewSearcher(&kit.MemFile{Data: data, Nm: filepath.Join(dir, b.File)})
 		if err != nil {
 			loadErr = err
 			return nil
 		}
+		beat()
 		for i := range e.battery {
 			op := &e.battery[i]
 			if op.DirOnly {
@@ -920,6 +940,7 @@ func (e *c11Env) run(c c11Case) (o c11Outcome) {
 			ctx, cancel := context.WithTimeout(context.Background(), e.watchdog)
 			perr := c11Guard(func() error { c11RunOp(ctx, s, op); return nil })
 			cancel()
+			beat()
 			var p *c11Panic
 			if errors.As(perr, &p) {
 				site := c11PanicSite(p.Stack)
